@@ -27,5 +27,5 @@ def main(tier, replay=None):
                 "acknowledged envelope, and the refusal class is permanent for 11..40/size/hops/addresses and temporary otherwise" % (5 if tier == "quick" else 6))
     res.assumptions = ["virtual kernel (appendix A)", "exit status 115 (undocumented compatibility code) may map to either refusal class"]
     res.require_nonzero("evaluations", "acknowledged", "commits_verified", "refused_permanently", "refused_temporarily", "no_reply", "multi_message_connections", "runs_with_injected_fault", "transaction_sequences", "timeouts_waited")
-    lib_conformance(res, rundir("C07lib"), plain_src, ['io', 'num', 'ctl'], tier, asan=False)
+    lib_conformance(res, rundir("C07lib"), plain_src, ['io', 'num', 'ctl', 'date'], tier, asan=False)
     return res.finish()
